@@ -27,10 +27,31 @@ type target struct {
 	model   *rlib.Store
 }
 
-func newTarget(isValue bool, initial map[string]int32) *target {
+// equivalenceOption: what the resource is configured to treat as "no change worth an event". It concerns emission only:
+// what is stored, returned and detected as a concurrent modification is the same with any of them.
+func equivalenceOption(name string) []resource.Option {
+	switch name {
+	case "nodup":
+		return []resource.Option{resource.WithNoDuplicates()}
+	case "coarse": // values whose counters differ by at most 1 are equivalent (an analogue tolerance)
+		return []resource.Option{resource.WithMessageEquivalence(func(x, y proto.Message) bool {
+			d := rlib.GetCounter(x) - rlib.GetCounter(y)
+			return d >= -1 && d <= 1
+		})}
+	}
+	return nil
+}
+
+var equivalences = []string{"", "", "nodup", "coarse"}
+
+func newTarget(isValue bool, initial map[string]int32, equivalence ...string) *target {
 	tg := &target{isValue: isValue, model: &rlib.Store{IsValue: isValue, Proto: &testproto.ForeignMessage{}, Items: map[string]*rlib.Entry{}}}
+	var eq []resource.Option
+	if len(equivalence) > 0 {
+		eq = equivalenceOption(equivalence[0])
+	}
 	if isValue {
-		var opts []resource.Option
+		opts := append([]resource.Option(nil), eq...)
 		if v, ok := initial["x"]; ok {
 			opts = append(opts, resource.WithInitialValue(fm(v)))
 			tg.model.Items[rlib.ValueKey] = &rlib.Entry{Msg: fm(v)}
@@ -38,7 +59,7 @@ func newTarget(isValue bool, initial map[string]int32) *target {
 		tg.val = resource.NewValue(opts...)
 		return tg
 	}
-	var opts []resource.Option
+	opts := append([]resource.Option(nil), eq...)
 	for id, v := range initial {
 		opts = append(opts, resource.WithInitialRecord(id, fm(v)))
 		tg.model.Items[id] = &rlib.Entry{Msg: fm(v)}
@@ -98,6 +119,10 @@ func drawOp(t *rapid.T, label string, isValue bool) rlib.Op {
 		op.Expected, op.ExpectedLabel = fm(int32(rapid.IntRange(0, 3).Draw(t, label+".exp"))), "cas"
 	case 1:
 		op.Check = fmt.Sprintf("counter=%d", rapid.IntRange(0, 3).Draw(t, label+".chk"))
+	case 4:
+		// a precondition that accepts several successive versions and then stops accepting: a call that re-reads after
+		// losing a race must re-evaluate it against what it finally acts on
+		op.Check = fmt.Sprintf("counter<=%d", rapid.IntRange(0, 8).Draw(t, label+".chkmax"))
 	case 2:
 		if op.Kind != rlib.OpDelete {
 			op.Before = "delta"
@@ -139,7 +164,8 @@ func TestForcedInterleavings(t *testing.T) {
 		if !isValue && rapid.Bool().Draw(t, "hasY") {
 			initial["y"] = 1
 		}
-		tg := newTarget(isValue, initial)
+		equiv := rapid.SampledFrom(equivalences).Draw(t, "equivalence")
+		tg := newTarget(isValue, initial, equiv)
 		depth := rapid.IntRange(1, 3).Draw(t, "depth")
 		ops := make([]rlib.Op, depth+1)
 		ops[0] = drawOp(t, "op0", isValue)
@@ -152,7 +178,7 @@ func TestForcedInterleavings(t *testing.T) {
 			}
 			plan[d] = injection{point: rapid.SampledFrom(pts).Draw(t, fmt.Sprintf("point%d", d)), op: ops[d+1], repeat: 1}
 			if ops[d].Kind == rlib.OpDelete && rapid.IntRange(0, 3).Draw(t, fmt.Sprintf("repeat%d", d)) == 0 {
-				plan[d].repeat = rapid.IntRange(2, 6).Draw(t, fmt.Sprintf("nrepeat%d", d))
+				plan[d].repeat = rapid.IntRange(2, 8).Draw(t, fmt.Sprintf("nrepeat%d", d))
 			}
 		}
 		var hist []rlib.HistOp
@@ -189,7 +215,7 @@ func TestForcedInterleavings(t *testing.T) {
 		}()
 		final := tg.final()
 		var desc []string
-		desc = append(desc, fmt.Sprintf("initial=%v", initial))
+		desc = append(desc, fmt.Sprintf("initial=%v equivalence=%q", initial, equiv))
 		for d := range plan {
 			desc = append(desc, fmt.Sprintf("inject@%s x%d(fired %d): %v", plan[d].point, plan[d].repeat, fired[d], plan[d].op))
 		}
@@ -260,7 +286,7 @@ func TestStressLinearizable(t *testing.T) {
 		if rapid.Bool().Draw(t, "hasX") {
 			initial["x"] = int32(rapid.IntRange(0, 3).Draw(t, "x0"))
 		}
-		tg := newTarget(isValue, initial)
+		tg := newTarget(isValue, initial, rapid.SampledFrom(equivalences).Draw(t, "equivalence"))
 		ng := rapid.IntRange(2, 4).Draw(t, "goroutines")
 		scripts := make([][]rlib.Op, ng)
 		total := 0
@@ -342,10 +368,26 @@ func TestStressLinearizable(t *testing.T) {
 func TestStressCounters(t *testing.T) {
 	rapid.Check(t, func(t *rapid.T) {
 		isValue := rapid.Bool().Draw(t, "isValue")
-		tg := newTarget(isValue, map[string]int32{"x": 0})
+		equiv := rapid.SampledFrom(equivalences).Draw(t, "equivalence")
+		tg := newTarget(isValue, map[string]int32{"x": 0}, equiv)
 		ng := rapid.IntRange(2, 8).Draw(t, "goroutines")
 		per := rapid.IntRange(1, 50).Draw(t, "per")
 		useCAS := rapid.Bool().Draw(t, "cas")
+		// rendezvous: the writers of a round meet inside their interceptor / between their read and their write, so they
+		// all act on the same version and reach the store's compare-and-write step together
+		rendezvous := rapid.Bool().Draw(t, "rendezvous")
+		arrived := make([]atomic.Int32, per)
+		meet := func(i int) {
+			if !rendezvous {
+				return
+			}
+			arrived[i].Add(1)
+			for spins := 0; int(arrived[i].Load()) < ng && spins < 20000; spins++ {
+				if spins%64 == 63 {
+					runtimeGosched()
+				}
+			}
+		}
 		var ok atomic.Int64
 		var wg sync.WaitGroup
 		for g := 0; g < ng; g++ {
@@ -353,8 +395,19 @@ func TestStressCounters(t *testing.T) {
 			go func() {
 				defer wg.Done()
 				for i := 0; i < per; i++ {
+					i := i
 					var err error
-					if useCAS {
+					if !useCAS && rendezvous {
+						opt := resource.InterceptBefore(func(old, change proto.Message) {
+							change.(*testproto.ForeignMessage).C = old.(*testproto.ForeignMessage).C + 1
+							meet(i)
+						})
+						if isValue {
+							_, err = tg.val.Set(fm(0), opt)
+						} else {
+							_, err = tg.col.Update("x", fm(0), opt)
+						}
+					} else if useCAS {
 						// read, then compare-and-swap to +1
 						var cur proto.Message
 						if isValue {
@@ -363,6 +416,7 @@ func TestStressCounters(t *testing.T) {
 							cur, _ = tg.col.Get("x")
 						}
 						next := fm(cur.(*testproto.ForeignMessage).C + 1)
+						meet(i)
 						if isValue {
 							_, err = tg.val.Set(next, resource.WithExpectedValue(cur))
 						} else {
@@ -389,11 +443,14 @@ func TestStressCounters(t *testing.T) {
 		}
 		got := final[key].(*testproto.ForeignMessage).C
 		if int64(got) != ok.Load() {
-			t.Fatalf("%d increments reported success but the counter is %d (isValue=%v cas=%v goroutines=%d x %d): an update was lost or applied twice", ok.Load(), got, isValue, useCAS, ng, per)
+			t.Fatalf("%d increments reported success but the counter is %d (isValue=%v cas=%v rendezvous=%v equivalence=%q goroutines=%d x %d): an update was lost or applied twice", ok.Load(), got, isValue, useCAS, rendezvous, equiv, ng, per)
 		}
 		lib.Ev.Class("stress-counter")
-		lib.Ev.Case(fmt.Sprintf("counter|%v|%v|%d|%d|%d", isValue, useCAS, ng, per, got), func() any {
-			return fmt.Sprintf("counter stress isValue=%v cas=%v %dx%d: %d successes", isValue, useCAS, ng, per, got)
+		if rendezvous {
+			lib.Ev.Class("stress-counter: writers of a round rendezvous between read and write")
+		}
+		lib.Ev.Case(fmt.Sprintf("counter|%v|%v|%v|%s|%d|%d|%d", isValue, useCAS, rendezvous, equiv, ng, per, got), func() any {
+			return fmt.Sprintf("counter stress isValue=%v cas=%v rendezvous=%v equivalence=%q %dx%d: %d successes", isValue, useCAS, rendezvous, equiv, ng, per, got)
 		})
 	})
 }
